@@ -238,12 +238,16 @@ TEXT = {
                       "table content, so both pipelines give the classes of one relation (sharded_classes, direct_classes). C04_payloads_agree: "
                       "nodes of the two final graphs with the same k-mers carry the same payload - every node's payload is the saturating sum of "
                       "the counts of its k-mers, through compress_kmers, concatenation and compress_graph (compressGraph_kdata), whatever the "
-                      "folding order. Adjacencies are decided by running both real pipelines on the same read sets (6-10 (K,P) pairs, default and "
+                      "folding order. C04_adjacencies_agree: the two final graphs have the same adjacencies (unordered pairs of canonical "
+                      "k-mers: steps between consecutive k-mers inside nodes and edges find_link resolves between node ends) - in every ported "
+                      "graph over a closed table these are exactly the table's recorded extensions (PGraph.adj_iff: every node is a chain of good "
+                      "links, so an interior extension is the step to the chain neighbour and an extension at an end port is a resolved edge). "
+                      "The sharded pipeline's final graph also satisfies GInv. Independently, all three equalities are evaluated by running both real pipelines on the same read sets (6-10 (K,P) pairs, default and "
                       "random permutations, stranded and unstranded, thresholds 1-3, with and without sharded pruning) and comparing canonical "
                       "partitions, payload totals and adjacencies; both are also diffed with the composed Lean model (per-shard hash orders "
                       "passed as data).",
         "design_ref": "DESIGN.md section 6, C04",
-        "level_note": COMMON_NOTE + "Partial: partition and payload totals are proved end to end; adjacencies of the two final graphs are compared by execution.",
+        "level_note": COMMON_NOTE + "Complete for the model under the stated hypotheses (msp_sequence within its contract, hash orders are permutations, count payloads with the saturating sum, constantly-true join as in the crate's pipelines).",
         "technique": "Lean 4 proof (refinement chain: observation streams -> tables -> ported graphs -> components of one key-level relation) + differential correspondence of composed pipelines with executable predicate on both real pipelines",
     },
     "C06": {
